@@ -6,7 +6,7 @@
 (* TLC evaluates AsmRef on both observations and the relational clauses    *)
 (* between them, and prints the false clauses as <<clause, item index>>.   *)
 (***************************************************************************)
-EXTENDS Integers, Sequences, FiniteSets, TLC, Json, IOUtils, AsmRef
+EXTENDS Integers, Sequences, FiniteSets, TLC, Json, IOUtils, AsmPasses
 
 Recs == JsonDeserialize(IOEnv.RECS_FILE)
 N == Len(Recs)
@@ -14,7 +14,7 @@ N == Len(Recs)
 \* base instructions that have a 16-bit form: computed from the DECODER over all 65,536 halfwords,
 \* independently of the assembler's compression criteria
 \* ("equals the expansion of a legal non-hint RV32C instruction": literal equality of mnemonic and operands)
-EligibleSet == {D16!Expand(D16!Dec16(h)) : h \in {x \in 0..65535 : D16!Legal(x)}}
+EligibleSet == Eligible16
 
 Rel(prog, nc, c) ==
   IF nc.status = "ok" /\ c.status # "ok" THEN { <<"CompressKeepsSuccess", 0>> }
@@ -29,6 +29,17 @@ Rel(prog, nc, c) ==
             i \in {j \in 1..Len(prog) : prog[j].k \in {"data", "gap"} /\ c.rle[j] # nc.rle[j]} }
   ELSE {}
 
+(* Drift: does the implementation-shaped model (AsmPasses!Run) predict what the real assembler did?  *)
+(* Reported in the evidence only; a disagreement that falsifies no reference clause is not a verdict. *)
+DriftOf(prog, obs, compress) ==
+  LET m == Run(prog, compress) IN
+  IF obs.status = "ok"
+  THEN IF m.status # "ok" THEN {"status"}
+       ELSE (IF m.sizes = obs.sizes THEN {} ELSE {"sizes"}) \cup
+            (IF \A t \in LabelNames(prog) : t \in DOMAIN obs.labels /\ obs.labels[t] = m.labels[t] THEN {} ELSE {"labels"})
+  ELSE IF m.status = "ok" THEN {"status"} ELSE {}
+Drift(r) == << DriftOf(r.prog, r.nc, FALSE), DriftOf(r.prog, r.c, TRUE) >>
+
 VARIABLES i, out
 vars == <<i, out>>
 Judge(r) == << IF r.nc.status = "ok" THEN RunFails(r.prog, r.nc) ELSE {},
@@ -37,5 +48,6 @@ Judge(r) == << IF r.nc.status = "ok" THEN RunFails(r.prog, r.nc) ELSE {},
 Init == i \in 1..N /\ out = Judge(Recs[i])
 Next == UNCHANGED vars
 Spec == Init /\ [][Next]_vars
-Report == out = << {}, {}, {} >> \/ PrintT(<<"BAD", i, out[1], out[2], out[3]>>)
+Report == /\ (out = << {}, {}, {} >> \/ PrintT(<<"BAD", i, out[1], out[2], out[3]>>))
+          /\ (~IOEnv.DRIFT = "1" \/ Drift(Recs[i]) = << {}, {} >> \/ PrintT(<<"DRIFT", i, Drift(Recs[i])[1], Drift(Recs[i])[2]>>))
 =============================================================================
